@@ -89,11 +89,16 @@ def warm():
         plan["fmts"] = list(pair)
         if plan.get("md"):
             plan["md"]["merge"] = True
+            plan["md"]["tgt_fmt"] = pair[1]
         sim = Sim(0, plan, step_cap=STEP_CAP)
         try:
             execute(sim, plan)
         except Violation:
             pass
+        except Exception as e:  # noqa: BLE001 - a warm-up plan patched by hand may be inconsistent
+            import sys
+
+            print(f"C40 warm-up run {i} skipped: {type(e).__name__}: {e}", file=sys.stderr)
 
     for i, (bfmt, pair) in enumerate([("4", ("2a", "2a")), ("0.9", ("2a", "2a")), ("0.8", ("pack-0.92", "pack-0.92")), ("4", ("pack-0.92", "2a"))]):
         histsim.warm_scratch(lambda i=i, bfmt=bfmt, pair=pair: dry(i, bfmt, pair))
